@@ -27,25 +27,26 @@ func init() {
 }
 
 type WinCfg struct {
-	Role     int     `json:"role"` // 0: stack sends, 1: stack receives
-	V6       bool    `json:"v6"`
-	MTU      int     `json:"mtu"`
-	PeerMSS  int     `json:"peer_mss"` // -1: no MSS option
-	PeerWS   int     `json:"peer_ws"`  // -1: no window scale option
-	TS       bool    `json:"ts"`
-	SACK     bool    `json:"sack"`
-	CC       string  `json:"cc"`
-	RcvBuf   int     `json:"rcvbuf"`
-	SndBuf   int     `json:"sndbuf"`
-	Passive  bool    `json:"passive"` // the peer opens the connection
-	MaxSteps int     `json:"max_steps"`
-	YieldP   float64 `json:"yield_p"`
-	ISSPlace int     `json:"iss_place"` // C14: 0 none, 1 stack just below 2^31, 2 stack just below 2^32, 3/4 peer likewise
-	ISSBack  int     `json:"iss_back"`
-	Cookie   bool    `json:"syn_cookies,omitempty"`      // passive open through the SYN-cookie path (listener in flood mode)
-	DupSA    bool    `json:"syn_ack_repeated,omitempty"` // active open: the peer's SYN-ACK arrives a second time (it missed the ACK)
-	SAWin    int     `json:"syn_ack_window,omitempty"`   // active open: the window the peer's SYN-ACK offers (0 = 65535)
-	ISSMid   bool    `json:"iss_mid_space,omitempty"`    // the neutral twin of a C14 run: same placement, counted back from mid-space values
+	Role      int     `json:"role"` // 0: stack sends, 1: stack receives
+	V6        bool    `json:"v6"`
+	MTU       int     `json:"mtu"`
+	PeerMSS   int     `json:"peer_mss"` // -1: no MSS option
+	PeerWS    int     `json:"peer_ws"`  // -1: no window scale option
+	TS        bool    `json:"ts"`
+	SACK      bool    `json:"sack"`
+	CC        string  `json:"cc"`
+	RcvBuf    int     `json:"rcvbuf"`
+	SndBuf    int     `json:"sndbuf"`
+	Passive   bool    `json:"passive"` // the peer opens the connection
+	MaxSteps  int     `json:"max_steps"`
+	YieldP    float64 `json:"yield_p"`
+	ISSPlace  int     `json:"iss_place"` // C14: 0 none, 1 stack just below 2^31, 2 stack just below 2^32, 3/4 peer likewise
+	ISSBack   int     `json:"iss_back"`
+	Cookie    bool    `json:"syn_cookies,omitempty"`       // passive open through the SYN-cookie path (listener in flood mode)
+	DupSA     bool    `json:"syn_ack_repeated,omitempty"`  // active open: the peer's SYN-ACK arrives a second time (it missed the ACK)
+	SAWin     int     `json:"syn_ack_window,omitempty"`    // active open: the window the peer's SYN-ACK offers (0 = 65535)
+	WinJitter bool    `json:"ack_window_jitter,omitempty"` // recovery scenario: every advancing ACK of the peer changes the advertised window a little
+	ISSMid    bool    `json:"iss_mid_space,omitempty"`     // the neutral twin of a C14 run: same placement, counted back from mid-space values
 }
 
 func neutralWin(raw json.RawMessage) json.RawMessage {
